@@ -244,7 +244,7 @@ def finish(prop, tier, seed, plan, results, errors, harness_out, wall, update_ba
             "failed": [{"function": q, "obligation": o.name, "backend": o.backend} for (q, o) in viol],
             "undecided": [{"function": q, "obligation": (o.name if o is not None else None)} for (q, o) in undecided],
             "checker_errors": checker_errors,
-            "budget": "z3 rlimit (deterministic) with wall-clock backstop; E-matching first, MBQI second, cvc5 CLI on z3 unknowns",
+            "budget": "each goal is decided on its cone of influence (hypotheses sharing symbols with it; the rest checked for consistency); z3 rlimit (deterministic) with an 8x wall-clock backstop; E-matching first, MBQI second, cvc5 CLI on z3 unknowns; baseline obligations were admitted at half this budget",
         },
         "assumptions": sorted(assumptions),
         "wall_s": round(wall, 2),
